@@ -140,6 +140,13 @@ struct PidSim
         else if (ctype == 1)
         {
             u.fz = (a_pid_fuzzy *)SA.halloc(sizeof(a_pid_fuzzy)); memset(u.fz, 0, sizeof(a_pid_fuzzy));
+            // the documented size macro must expand correctly for any expression argument, not only for identifiers
+            {
+                bool const wide = (tabseed & 1) != 0; unsigned const a = nfuzz, b = nfuzz;
+                size_t const want = sizeof(unsigned int) * nfuzz * 2 + sizeof(a_real) * nfuzz * (2 + (size_t)nfuzz);
+                size_t const m1 = A_PID_FUZZY_BFUZZ(wide ? a : b), m2 = A_PID_FUZZY_BFUZZ(a & b), m3 = A_PID_FUZZY_BFUZZ(nfuzz + 0), m4 = A_PID_FUZZY_BFUZZ(a == b ? nfuzz : 1u);
+                if (m1 != want || m2 != want || m3 != want || m4 != want) { c.fail("scratch-size-macro-wrong", "A_PID_FUZZY_BFUZZ", "A_PID_FUZZY_BFUZZ(expression) gives %zu / %zu / %zu / %zu bytes for n = %u, the documented layout needs %zu", m1, m2, m3, m4, nfuzz, want); }
+            }
             u.bfuzz = SA.halloc(A_PID_FUZZY_BFUZZ(nfuzz));
         }
         else { u.nr = (a_pid_neuro *)SA.halloc(sizeof(a_pid_neuro)); memset(u.nr, 0, sizeof(a_pid_neuro)); }
@@ -546,9 +553,11 @@ struct TfSim
     bool exact = true, shift_valid = true;
     std::vector<long double> outM; // reference outputs of the main filter since the last point at which the delayed replica was in step
 
+    bool null_for_order0 = false; // an order-0 side is given a NULL history pointer (there is nothing to store)
     void mk(F &f)
     {
-        f.in = (double *)SA.halloc(nn * sizeof(double)); f.out = (double *)SA.halloc(dn * sizeof(double));
+        f.in = (nn == 0 && null_for_order0) ? nullptr : (double *)SA.halloc(nn * sizeof(double));
+        f.out = (dn == 0 && null_for_order0) ? nullptr : (double *)SA.halloc(dn * sizeof(double));
         for (unsigned i = 0; i < nn; ++i) f.in[i] = 777.5;
         for (unsigned i = 0; i < dn; ++i) f.out[i] = -333.25; // init must clear them
         c.site("a_tf_init");
@@ -600,6 +609,7 @@ struct TfSim
         size_t const k = outM.size() - 1;
         long double const wantd = k >= delay ? outM[k - delay] : 0;
         if (shift_valid && !cmp(yd, wantd, "not-time-invariant", "filter fed the input delayed by d samples")) return false;
+        if (M.tf.num_n != nn || M.tf.den_n != dn) return c.fail("difference-equation-violated", "a_tf_init", "the filter object reports orders %u/%u, configured %u/%u", M.tf.num_n, M.tf.den_n, nn, dn);
         if (exact) c.st.add("probe.tf_exact_steps");
         c.obs(bits_of(ym));
         { int e1 = 0; std::frexp(ym, &e1); c.st.state(fnv_mix(fnv_mix(fnv_mix(FNV0, nn * 16 + dn), (uint64_t)(e1 + 2000) * 2 + (ym > 0)), (uint64_t)exact * 64 + (outM.size() > 63 ? 63 : outM.size()))); }
@@ -623,8 +633,12 @@ struct TfSim
         for (unsigned i = 0; i < dn; ++i) den[i] = (double)((int64_t)(splitmix64(cs + 100 + i) % 5) - 2);
         if (nn == 0) c.st.add("probe.tf_numerator_order_zero");
         if (dn == 0) c.st.add("probe.tf_denominator_order_zero");
+        null_for_order0 = p.knob("null0", 0) != 0;
+        if (null_for_order0 && (nn == 0 || dn == 0)) c.st.add("probe.tf_null_history_for_order_0");
+        // the objects are NOT zero-initialised by the caller: every field must be set by init
+        for (F *f : {&M, &Y, &L, &D, &MM}) memset(&f->tf, 0x5A, sizeof f->tf);
         mk(M); mk(Y); mk(L); mk(D);
-        MM.in = (double *)SA.halloc(nn * sizeof(double)); MM.out = (double *)SA.halloc(dn * sizeof(double));
+        MM.in = (nn == 0 && null_for_order0) ? nullptr : (double *)SA.halloc(nn * sizeof(double)); MM.out = (dn == 0 && null_for_order0) ? nullptr : (double *)SA.halloc(dn * sizeof(double));
         for (unsigned i = 0; i < nn; ++i) MM.in[i] = 1.5;
         for (unsigned i = 0; i < dn; ++i) MM.out[i] = -2.5;
         if (p.knob("member_init", 0)) MM.tf.init(nn, num, MM.in, dn, den, MM.out); // a_tf::init
@@ -651,10 +665,10 @@ struct TfSim
                 F *all[5] = {&M, &Y, &L, &D, &MM};
                 for (F *f : all)
                 {
-                    double *line = (double *)SA.halloc(newn * sizeof(double));
+                    double *line = (newn == 0 && null_for_order0) ? nullptr : (double *)SA.halloc(newn * sizeof(double));
                     for (unsigned i = 0; i < newn; ++i) line[i] = 55.5; // must be cleared by the call
-                    if (isnum) { c.site("a_tf_set_num"); if (f == &MM) f->tf.set_num(newn, co, line); else a_tf_set_num(&f->tf, newn, co, line); SA.hfree(f->in); f->in = line; }
-                    else { c.site("a_tf_set_den"); if (f == &MM) f->tf.set_den(newn, co, line); else a_tf_set_den(&f->tf, newn, co, line); SA.hfree(f->out); f->out = line; }
+                    if (isnum) { c.site("a_tf_set_num"); if (f == &MM) f->tf.set_num(newn, co, line); else a_tf_set_num(&f->tf, newn, co, line); if (f->in) SA.hfree(f->in); f->in = line; }
+                    else { c.site("a_tf_set_den"); if (f == &MM) f->tf.set_den(newn, co, line); else a_tf_set_den(&f->tf, newn, co, line); if (f->out) SA.hfree(f->out); f->out = line; }
                 }
                 if (isnum) { SA.hfree(num); num = co; nn = newn; xs.assign(nn, 0); xs2.assign(nn, 0); dq.clear(); }
                 else { SA.hfree(den); den = co; dn = newn; ys.assign(dn, 0); ys2.assign(dn, 0); }
@@ -787,6 +801,12 @@ struct RcSim
                 { a_lpf tl; a_hpf th; tl.gen(fc, ts); th.gen(fc, ts); if (!close(tl.alpha, al) || !close(th.alpha, ah)) { c.fail("cxx-wrapper-disagrees", "a_lpf_gen", "gen() members and a_lpf_gen/a_hpf_gen disagree beyond rounding for fc=%g ts=%g (%.17g vs %.17g, %.17g vs %.17g)", fc, ts, tl.alpha, al, th.alpha, ah); break; } }
                 { // initialiser macros of the headers
                     a_lpf ml = A_LPF_2(fc, ts); a_hpf mh = A_HPF_2(fc, ts); a_lpf m1 = A_LPF_1(al); a_hpf h1 = A_HPF_1(ah);
+                    // the same through expression arguments (sums, differences, conditionals)
+                    double const t1 = ts * 3, t0 = ts * 2, f1 = fc / 2;
+                    bool const pick = (mag64(o.a[2]) & 1) != 0;
+                    double const e1 = A_LPF_GEN(f1 + f1, t1 - t0), e2 = A_HPF_GEN(f1 + f1, t1 - t0), e3 = A_LPF_GEN(pick ? fc : fc, pick ? ts : ts), e4 = A_HPF_GEN(pick ? fc : fc, pick ? ts : ts);
+                    double const x1 = a_lpf_gen(f1 + f1, t1 - t0), x2 = a_hpf_gen(f1 + f1, t1 - t0);
+                    if (!close(e1, x1) || !close(e2, x2) || !close(e3, al) || !close(e4, ah)) { c.fail("cxx-wrapper-disagrees", "A_LPF_GEN", "the generator macros with expression arguments disagree with the functions (%.17g vs %.17g, %.17g vs %.17g)", e1, x1, e2, x2); break; }
                     if (!close(ml.alpha, al) || !close(mh.alpha, ah) || !close(A_LPF_GEN(fc, ts), al) || !close(A_HPF_GEN(fc, ts), ah) || ml.output != 0 || mh.output != 0 || mh.input != 0 || !close(m1.alpha, al) || m1.output != 0 || !close(h1.alpha, ah) || h1.output != 0 || h1.input != 0)
                     { c.fail("cxx-wrapper-disagrees", "A_LPF_GEN", "the initialiser macros A_LPF_* / A_HPF_* disagree with a_lpf_gen / a_hpf_gen / a zeroed state for fc=%g ts=%g", fc, ts); break; }
                 }
@@ -861,7 +881,7 @@ struct CtlEngine : Engine
             {
                 p.set("num_n", (int64_t)r.below(9)); p.set("den_n", (int64_t)r.below(9)); p.set("coefseed", (int64_t)r.below(1u << 30));
                 p.set("la", (int64_t)r.range(-4, 4)); p.set("lb", (int64_t)r.range(-4, 4)); p.set("delay", (int64_t)r.below(6));
-                p.set("member_init", r.chance(1, 2));
+                p.set("member_init", r.chance(1, 2)); p.set("null0", r.chance(1, 2));
             }
             else { p.set("regime", r.chance(1, 2)); p.set("alpha", (int64_t)r.below(1001)); }
             std::vector<int> kinds = {F_INPUT, F_INPUT, F_INPUT, F_INPUTS, F_INPUTS};
